@@ -631,18 +631,14 @@ func (t *Tpl) writeNode(w io.Writer, node *node, ctx *Ctx) (err error) {
 	case typeExit:
 		// Interrupt template evaluation.
 		err = ErrInterrupt
-	case typeJsonQ:
-		ctx.chJQ = true
+	case typeJsonQ, typeHtmlE, typeUrlEnc:
+		ctx.bnd = append(ctx.bnd, node.typ)
 	case typeEndJsonQ:
-		ctx.chJQ = false
-	case typeHtmlE:
-		ctx.chHE = true
+		ctx.closeBound(typeJsonQ)
 	case typeEndHtmlE:
-		ctx.chHE = false
-	case typeUrlEnc:
-		ctx.chUE = true
+		ctx.closeBound(typeHtmlE)
 	case typeEndUrlEnc:
-		ctx.chUE = false
+		ctx.closeBound(typeUrlEnc)
 	default:
 		// Unknown node type caught.
 		err = ErrUnknownCtl
@@ -650,34 +646,41 @@ func (t *Tpl) writeNode(w io.Writer, node *node, ctx *Ctx) (err error) {
 	return
 }
 
-// Write p applying escaping of the bound tags ({% jsonquote %}, {% htmlescape %}, {% urlencode %}) if any is open.
-func (ctx *Ctx) writeBound(w io.Writer, p []byte) (err error) {
-	if ctx.chJQ {
-		// JSON quote mode.
-		ctx.BufAcc.StakeOut()
-		jsonEscape(p, &ctx.BufAcc)
-		_, err = w.Write(ctx.BufAcc.StakedBytes())
-	} else if ctx.chHE {
-		// HTML escape mode.
-		ctx.bufCB.Reset().Write(p)
-		err = modHTMLEscape(ctx, &ctx.bufX, &ctx.bufCB, nil)
-		if err != nil {
-			_, err = w.Write(p)
-		} else {
-			_, err = w.Write(ctx.bufMO.Bytes())
+// Close the innermost open bound tag of given type.
+func (ctx *Ctx) closeBound(typ rtype) {
+	for i := len(ctx.bnd) - 1; i >= 0; i-- {
+		if ctx.bnd[i] == typ {
+			ctx.bnd = append(ctx.bnd[:i], ctx.bnd[i+1:]...)
+			return
 		}
-	} else if ctx.chUE {
-		// URL encode mode.
-		ctx.bufCB.Reset().Write(p)
-		err = modURLEncode(ctx, &ctx.bufX, &ctx.bufCB, nil)
-		if err != nil {
-			_, err = w.Write(p)
-		} else {
-			_, err = w.Write(ctx.bufMO.Bytes())
-		}
-	} else {
-		_, err = w.Write(p)
 	}
+}
+
+// Write p applying escaping of every open bound tag ({% jsonquote %}, {% htmlescape %}, {% urlencode %}),
+// the innermost first.
+func (ctx *Ctx) writeBound(w io.Writer, p []byte) (err error) {
+	for i := len(ctx.bnd) - 1; i >= 0; i-- {
+		switch ctx.bnd[i] {
+		case typeJsonQ:
+			// JSON quote mode.
+			ctx.BufAcc.StakeOut()
+			jsonEscape(p, &ctx.BufAcc)
+			p = ctx.BufAcc.StakedBytes()
+		case typeHtmlE:
+			// HTML escape mode.
+			ctx.bufCB.Reset().Write(p)
+			if modHTMLEscape(ctx, &ctx.bufX, &ctx.bufCB, nil) == nil {
+				p = ctx.bufMO.Bytes()
+			}
+		case typeUrlEnc:
+			// URL encode mode.
+			ctx.bufCB.Reset().Write(p)
+			if modURLEncode(ctx, &ctx.bufX, &ctx.bufCB, nil) == nil {
+				p = ctx.bufMO.Bytes()
+			}
+		}
+	}
+	_, err = w.Write(p)
 	return
 }
 
